@@ -591,7 +591,42 @@ func uniq(l []string) []string {
 
 // excludedTx reports whether a drawn transaction belongs to a class excluded by a known finding
 // ("KIND:tag"; the tag amt-neg stands for every negative-amount class).
-func excludedTx(h *run.H, tx txgen.Tx) bool {
+// zeroPowerRestake reports whether tx is a STAKE on a validator whose committed record has no power, or
+// that has no record while the delegation store still holds a locked total for it (known finding owned
+// by C11: the block end deletes such a record, a later UNSTAKE drives the new record negative and the
+// negative total power kills the node in the fee distribution).
+func zeroPowerRestake(w *hist.World, tx txgen.Tx) bool {
+	if tx.Kind != "STAKE" || w == nil {
+		return false
+	}
+	var m struct {
+		ValidatorAddress string
+	}
+	if json.Unmarshal(msgBytes(tx.Bytes), &m) != nil || m.ValidatorAddress == "" {
+		return false
+	}
+	for _, r := range w.ValRecs() {
+		if r.Address.String() == m.ValidatorAddress {
+			return r.Power <= 0
+		}
+	}
+	return hist.ParseAmt(w.Get("st__t_"+m.ValidatorAddress)).Sign() > 0
+}
+
+func msgBytes(tx []byte) []byte {
+	var stx struct {
+		Data []byte `json:"data"`
+	}
+	if json.Unmarshal(tx, &stx) != nil {
+		return nil
+	}
+	return stx.Data
+}
+
+func excludedTx(h *run.H, w *hist.World, tx txgen.Tx) bool {
+	if zeroPowerRestake(w, tx) && h.Excluded("STAKE:zero-power-record") {
+		return true
+	}
 	// known finding: a destroyed contract keeps its balance record (value duplicated); contracts whose
 	// runtime is SELFDESTRUCT(caller) are not deployed while the finding is open
 	if tx.Kind == "OLVM" && bytes.HasSuffix(olvmData(tx.Bytes), []byte{0x33, 0xff}) && h.Excluded("OLVM:selfdestruct-contract") {
@@ -619,7 +654,7 @@ func excludedTx(h *run.H, tx txgen.Tx) bool {
 func drawTxs(h *run.H, g *hist.Gen, max int) []txgen.Tx {
 	var out []txgen.Tx
 	for _, tx := range g.DrawTxs(max) {
-		if !excludedTx(h, tx) {
+		if !excludedTx(h, g.W, tx) {
 			out = append(out, tx)
 		}
 	}
